@@ -915,3 +915,128 @@ def r34_closure_state(ctx, include=None, rule='R34'):
                      '%s is created when the step is constructed and %s() adds to it on every run: running the same Flow object '
                      'again continues from what the previous run recorded' % (nm, inner))
     return n
+
+
+# ---------------------------------------------------------------------- R34c ONE-SHOT RESOURCES CREATED AT CONSTRUCTION
+
+_ONE_SHOT_CALLS = {'builtins.iter', 'builtins.map', 'builtins.filter', 'builtins.zip', 'builtins.open', 'builtins.enumerate',
+                   'itertools.chain', 'itertools.islice', 'zipfile.ZipFile', 'kvfile.KVFile', 'kvfile.kvfile.KVFile', 'kvfile.CachedKVFile'}
+
+
+def _one_shot_expr(ctx, e, fi):
+    """Does evaluating e create something that can be consumed / used only once: a generator object (call of a generator function
+    or method, generator expression), an iterator over something, an open file / archive / key-value store, a DataStream?"""
+    if isinstance(e, ast.GeneratorExp):
+        return 'a generator expression'
+    if isinstance(e, (ast.ListComp, ast.List, ast.Tuple)):
+        elts = [e.elt] if isinstance(e, ast.ListComp) else e.elts
+        for x in elts:
+            r = _one_shot_expr(ctx, x, fi)
+            if r:
+                return 'a list of ' + r
+        return None
+    if isinstance(e, ast.Call):
+        en = ctx.res.external_name(e)
+        if en in _ONE_SHOT_CALLS:
+            return en
+        if isinstance(e.func, ast.Attribute) and e.func.attr == 'datastream':
+            return 'a DataStream (its resource iterator is consumed by the first run)'
+        try:
+            tg = ctx.res.resolve_call(e)
+        except Exception:
+            tg = []
+        for t in tg:
+            if isinstance(t, FuncInfo) and not isinstance(t.node, ast.Lambda) and t.is_generator:
+                return 'the generator %s()' % t.node.name
+    return None
+
+
+def r34_one_shot(ctx, rule='R34', helpers_only=False):
+    """A step object may be run more than once (the same Flow object run again).  What its constructor - or the factory of a
+    function-style step - creates once and a run then consumes (a generator, an iterator, an open file or key-value store, a
+    DataStream) is gone on the second run.  Helper processors that Flow._chain creates afresh for every run are exempt as long as
+    _chain really builds the chain on every call."""
+    run = ctx.run
+    # does _chain rebuild the chain on every call?  (every returning path goes through the loop over the links)
+    from rules.framework import find_dispatch_loop
+    from sa.paths import Enumerator
+    flow, m, loop = find_dispatch_loop(ctx)
+    memoised = None
+    for p in Enumerator(cap=4096, where=m.qualname).paths(m.node.body):
+        if p.term != 'return':
+            continue
+        through = any(it.kind in ('loop', 'loop_exit') and it.node is loop for it in p.items)
+        rets = [it.node for it in p.items if it.kind == 'return']
+        if not through and rets and rets[-1].value is not None and any(
+                isinstance(x, ast.Attribute) and isinstance(x.value, ast.Name) and x.value.id == 'self' for x in ast.walk(rets[-1].value)):
+            memoised = rets[-1]
+    run.ok(rule, m.where, m.qualname + (': returns a stored chain on some path' if memoised is not None else ': builds the chain on every call'))
+    per_run_helpers = set()
+    for n in ast.walk(m.node):
+        if isinstance(n, ast.Call) and isinstance(n.func, ast.Name):
+            for c in ctx.repo.find_class(n.func.id):
+                per_run_helpers.add(c.qualname)
+    n_inst = 0
+    for c in sorted(ctx.repo.classes.values(), key=lambda c: c.qualname):
+        if not ctx.res.is_subclass(c, 'DataStreamProcessor'):
+            continue
+        init = c.methods.get('__init__')
+        if init is None or (helpers_only and c.qualname not in per_run_helpers):
+            continue
+        others = [mm for k, mm in c.methods.items() if k != '__init__']
+        reset = set()
+        for mm in others:
+            for a in ast.walk(mm.node):
+                if isinstance(a, ast.Assign):
+                    for t in a.targets:
+                        if isinstance(t, ast.Attribute) and isinstance(t.value, ast.Name) and t.value.id == 'self':
+                            reset.add(t.attr)
+        for a in own_nodes(init.node):
+            tgt_ = a.targets[0] if isinstance(a, ast.Assign) and len(a.targets) == 1 else (a.target if isinstance(a, ast.AnnAssign) and a.value is not None else None)
+            if not (isinstance(tgt_, ast.Attribute) and isinstance(tgt_.value, ast.Name) and tgt_.value.id == 'self'):
+                continue
+            attr = tgt_.attr
+            kind = _one_shot_expr(ctx, a.value, init)
+            if kind is None:
+                continue
+            n_inst += 1
+            used = any(isinstance(x, ast.Attribute) and isinstance(x.value, ast.Name) and x.value.id == 'self' and x.attr == attr
+                       and isinstance(x.ctx, ast.Load) for mm in others for x in ast.walk(mm.node))
+            exempt = c.qualname in per_run_helpers and memoised is None
+            if not used or attr in reset or exempt:
+                run.ok(rule, where(ctx.repo, a), '%s: self.%s = %s' % (c.qualname, attr, kind),
+                       'created per run (helper built by Flow._chain on every call)' if exempt else 're-created by a run / not used by a run')
+                continue
+            run.fail(rule, where(ctx.repo, a), c.qualname, 'self.%s holds %s created by the constructor and used by a run' % (attr, kind),
+                     'the constructor creates %s once and a run consumes it: the second run of the same Flow object (a checkpointed pipeline '
+                     'run again, results() after process()) finds it used up%s' % (
+                         kind, '' if c.qualname not in per_run_helpers else ' - Flow._chain now hands out the chain it built before (%s), so '
+                         'this helper object is run again too' % where(ctx.repo, memoised)))
+    # function-style steps: what the factory creates once and the step function (or a function nested next to it) uses on every run
+    for fi in ([] if helpers_only else sorted(ctx.repo.functions.values(), key=lambda f: f.qualname)):
+        if isinstance(fi.node, ast.Lambda) or fi.parent is not None or fi.cls is not None:
+            continue
+        nested = [x for x in ast.walk(fi.node) if isinstance(x, ast.FunctionDef) and x is not fi.node]
+        rets = [x for x in ast.walk(fi.node) if isinstance(x, ast.Return) and x.value is not None and
+                ctx.repo.enclosing_func(x) is fi]
+        names = {g.name for g in nested}
+        if not nested or not any(names & {y.id for y in ast.walk(r.value) if isinstance(y, ast.Name)} for r in rets):
+            continue
+        for a in own_nodes(fi.node):
+            if not (isinstance(a, ast.Assign) and len(a.targets) == 1 and isinstance(a.targets[0], ast.Name)):
+                continue
+            kind = _one_shot_expr(ctx, a.value, fi)
+            if kind is None:
+                continue
+            nm = a.targets[0].id
+            n_inst += 1
+            used_in = [g.name for g in nested if any(isinstance(x, ast.Name) and x.id == nm and isinstance(x.ctx, ast.Load)
+                                                      for x in ast.walk(g))
+                       and not any(isinstance(x, ast.Name) and x.id == nm and isinstance(x.ctx, ast.Store) for x in ast.walk(g))]
+            if not used_in:
+                run.ok(rule, where(ctx.repo, a), '%s: %s = %s' % (fi.qualname, nm, kind), 'not used by the step function')
+                continue
+            run.fail(rule, where(ctx.repo, a), fi.qualname, '%s holds %s created by the factory and used by the step' % (nm, kind),
+                     'the factory creates %s once, when the step is constructed, and %s() uses it on every run: the second run of the '
+                     'same Flow object finds it used up / closed' % (kind, used_in[0]))
+    return n_inst
